@@ -257,7 +257,7 @@ func validCase(tc tcase) (ok bool) {
 // nothing else changes. If a failing case stops failing under the repair, the failure is
 // attributed to that class.
 
-var repairClasses = []string{"nonfinite", "unsafe", "stringopt", "nilbytes", "embedded", "omitzero", "namedbytes"}
+var repairClasses = []string{"nonfinite", "unsafe", "stringopt", "nilbytes", "embedded", "omitzero", "namedbytes", "subsecond", "offsetsec", "utcnamed"}
 
 type repairer struct {
 	class string
@@ -382,6 +382,19 @@ func (r *repairer) value(t reflect.Type, v *val) *val {
 		}
 	case reflect.Struct:
 		if t == timeType {
+			name, off := v.T.Zone()
+			switch r.class {
+			case "subsecond":
+				n.T = v.T.Add(-time.Duration(v.T.Nanosecond()))
+			case "offsetsec":
+				if off%60 != 0 {
+					n.T = v.T.In(time.FixedZone(name, off/60*60))
+				}
+			case "utcnamed":
+				if name == "UTC" && off != 0 {
+					n.T = v.T.In(time.FixedZone("X", off))
+				}
+			}
 			break
 		}
 		nt := r.typ(t)
